@@ -15,28 +15,39 @@ from . import e1
 # --------------------------------------------------------------------------------------------
 
 def split_production(text):
-    """`E = E, "+", T` -> ("E", ("E", "\"+\"", "T"))"""
+    """`E = E, "+", T` -> ("E", ("E", "\"+\"", "T")); items may be quoted terminals, names, or LALRPOP's printed forms
+    of generated nonterminals such as `("," <"n">)+`."""
     lhs, rhs = text.split(" =", 1)
     rhs = rhs.strip()
-    items = []
+    items, cur, depth, inq = [], "", 0, False
     i = 0
     while i < len(rhs):
         c = rhs[i]
-        if c in ", ":
-            i += 1
-            continue
-        if c == '"':
-            j = i + 1
-            while rhs[j] != '"' or rhs[j - 1] == "\\":
-                j += 1
-            items.append(rhs[i:j + 1])
-            i = j + 1
+        if inq:
+            cur += c
+            if c == "\\" and i + 1 < len(rhs):
+                cur += rhs[i + 1]
+                i += 1
+            elif c == '"':
+                inq = False
+        elif c == '"':
+            inq = True
+            cur += c
+        elif c in "(<":
+            depth += 1
+            cur += c
+        elif c in ")>":
+            depth -= 1
+            cur += c
+        elif c == "," and depth == 0:
+            if cur.strip():
+                items.append(cur.strip())
+            cur = ""
         else:
-            j = i
-            while j < len(rhs) and rhs[j] != ",":
-                j += 1
-            items.append(rhs[i:j].strip())
-            i = j
+            cur += c
+        i += 1
+    if cur.strip():
+        items.append(cur.strip())
     return lhs.strip(), tuple(items)
 
 
@@ -85,12 +96,49 @@ def calls_of(expr, out):
             calls_of(a, out)
         if n.kind in ("user", "fallible"):
             out.append(n)
-    elif k in ("pairfst", "pairsnd", "inc"):
+    elif k in ("pairfst", "pairsnd", "inc", "some"):
         calls_of(expr[1], out)
-    elif k == "tuple":
+    elif k in ("tuple", "vec"):
         for e in expr[1]:
             calls_of(e, out)
+    elif k == "vecpush":
+        calls_of(expr[1], out)
+        calls_of(expr[2], out)
     return out
+
+
+VEC_LEAF_LEN = 2
+
+
+def vec_elems(expr, leaves, calls):
+    """element expressions (Rust) of a Vec-valued specification expression; shapes are concrete"""
+    k = expr[0]
+    if k == "vec":
+        return [rust(e, leaves, calls) for e in expr[1]]
+    if k == "leaf":
+        return ["v%d_%d" % (expr[1], j) for j in range(VEC_LEAF_LEN)]
+    if k == "vecpush":
+        return vec_elems(expr[1], leaves, calls) + [rust(expr[2], leaves, calls)]
+    if k == "sub" and expr[1].kind == "default":
+        return vec_elems(expr[1].args[0], leaves, calls)
+    raise ValueError(expr)
+
+
+def words(expr, kind, leaves, calls):
+    """u8 words a recording action receives for one argument"""
+    if kind == "vec":
+        el = vec_elems(expr, leaves, calls)
+        return [str(len(el))] + [el[i] if i < len(el) else "0" for i in range(3)]
+    if kind == "opt":
+        if expr[0] == "none":
+            return ["0", "0"]
+        if expr[0] == "some":
+            return ["1", rust(expr[1], leaves, calls)]
+        raise ValueError(expr)
+    ex = rust(expr, leaves, calls)
+    if kind == "loc" or is_loc(expr, leaves):
+        return ["(%s) as u8" % ex]
+    return [ex]
 
 
 def is_loc(expr, leaves):
@@ -147,7 +195,7 @@ pub mod rec_@G@ {
     pub static mut N: usize = 0;
     pub static mut IDS: [u8; MAXC] = [0; MAXC];
     pub static mut NARGS: [u8; MAXC] = [0; MAXC];
-    pub static mut ARGS: [[u8; 4]; MAXC] = [[0; 4]; MAXC];
+    pub static mut ARGS: [[u8; 12]; MAXC] = [[0; 12]; MAXC];
     pub static mut RET: [u8; MAXC] = [0; MAXC];
     pub static mut FAIL: u8 = 255;
     pub static mut ERR: u8 = 0;
@@ -158,7 +206,7 @@ pub mod rec_@G@ {
             let n = N;
             if n < MAXC {
                 IDS[n] = id; NARGS[n] = args.len() as u8;
-                let mut i = 0; while i < args.len() && i < 4 { ARGS[n][i] = args[i]; i += 1; }
+                let mut i = 0; while i < args.len() && i < 12 { ARGS[n][i] = args[i]; i += 1; }
             }
             N = n + 1;
             n
@@ -169,6 +217,9 @@ pub mod rec_@G@ {
         let n = log(id, args);
         unsafe { if FAIL as usize == n { Err(ParseError::User { error: ERR }) } else { Ok(RET[n % MAXC]) } }
     }
+    /// words of a Vec argument: [len, e0, e1, e2] (0 for absent); of an Option argument: [is_some, value]
+    pub fn wv(v: &alloc::vec::Vec<u8>) -> [u8; 4] { let mut w = [0u8; 4]; w[0] = v.len() as u8; let mut i = 0; while i < v.len() && i < 3 { w[1 + i] = v[i]; i += 1; } w }
+    pub fn wo(o: Option<u8>) -> [u8; 2] { match o { Some(x) => [1, x], None => [0, 0] } }
     pub fn n() -> usize { unsafe { N } }
     pub fn ret(j: usize) -> u8 { unsafe { RET[j] } }
     pub fn err() -> u8 { unsafe { ERR } }
@@ -189,7 +240,7 @@ def harness_for(g: G.Grammar, pidx, gp, sp, variants, p, ph, nstart, below=True)
     name = "red_%d_b%d" % (pidx, 1 if below else 0)
     L = []
     L.append("        #[kani::proof]")
-    L.append("        #[kani::unwind(10)]")
+    L.append("        #[kani::unwind(14)]")
     L.append("        pub fn %s() {" % name)
     L.append("            // %s" % gp["text"])
     L.append("            use crate::rec_%s as rec;" % g.name)
@@ -207,6 +258,10 @@ def harness_for(g: G.Grammar, pidx, gp, sp, variants, p, ph, nstart, below=True)
             kinds = [j for j, t in enumerate(g.terms) if t.name == tname]
             kind = kinds[0] if kinds else 0
             L.append("            let v%d: Tok = crate::t_%s::mk(%d, kani::any());" % (i, g.name, kind))
+        elif ty.startswith("alloc::vec::Vec<"):
+            for j in range(VEC_LEAF_LEN):
+                L.append("            let v%d_%d: %s = kani::any();" % (i, j, ty[len("alloc::vec::Vec<"):-1]))
+            L.append("            let v%d: %s = alloc::vec![%s];" % (i, ty, ", ".join("v%d_%d" % (i, j) for j in range(VEC_LEAF_LEN))))
         else:
             L.append("            let v%d: %s = kani::any();" % (i, ty))
     # a symbol for the slot below: any u8-typed variant, else the first variant
@@ -244,14 +299,14 @@ def harness_for(g: G.Grammar, pidx, gp, sp, variants, p, ph, nstart, below=True)
     for j, c in enumerate(calls):
         L.append("            if %d < ncalls {" % j)
         L.append('                assert!(rec::id(%d) == %d, "call %d is action %d (post-order, left to right)");' % (j, c.id, j, c.id))
-        L.append('                assert!(rec::nargs(%d) == %d, "argument count");' % (j, len(c.args)))
+        L.append('                assert!(rec::nargs(%d) == %d, "argument count");' % (j, sum(len(words(a, kk, leaves, calls)) for a, kk in zip(c.args, getattr(c, "argkinds", ["u8"] * len(c.args))))))
+        kinds = getattr(c, "argkinds", ["u8"] * len(c.args))
+        wi = 0
         for t, a in enumerate(c.args):
-            ex = rust(a, leaves, calls)
-            if is_loc(a, leaves):
-                ex = "(%s) as u8" % ex
-                L.append('                assert!(rec::arg(%d, %d) == %s, "location argument %d of call %d");' % (j, t, ex, t, j))
-            else:
-                L.append('                assert!(rec::arg(%d, %d) == %s, "argument %d of call %d");' % (j, t, ex, t, j))
+            for wx in words(a, kinds[t], leaves, calls):
+                what = "location argument" if (kinds[t] == "loc" or is_loc(a, leaves)) else "argument"
+                L.append('                assert!(rec::arg(%d, %d) == %s, "%s %d of call %d");' % (j, wi, wx, what, t, j))
+                wi += 1
         L.append("            }")
     if gp["accept"]:
         L.append("            match r {")
@@ -286,6 +341,18 @@ def harness_for(g: G.Grammar, pidx, gp, sp, variants, p, ph, nstart, below=True)
         L.append('                assert!(top.2 == e%d, "span ends at the end of the last child");' % (k - 1))
     else:
         L.append('                assert!(top.0 == empty_pos && top.2 == empty_pos, "empty production: zero-width span at the lookahead start | end of the symbol below | default");')
+    if sp.ty == "vec":
+        el = vec_elems(sp.root, leaves, calls)
+        L.append("                match top.1 {")
+        L.append('                    %sSymbol::Variant%d(v) => { assert!(v.len() == %d, "pushed Vec has the items so far plus the new one"); %s core::mem::forget(v); }' %
+                 (p, gp["push"], len(el), " ".join('assert!(v[%d] == %s, "Vec keeps the items in input order");' % (i, e) for i, e in enumerate(el))))
+        L.append('                    _ => panic!("pushed symbol has the wrong variant"),')
+        L.append("                }")
+        L.append("            }")
+        L.append('            kani::cover!(!failed, "a run without a failing action");')
+        L.append("            core::mem::forget(symbols); core::mem::forget(states);")
+        L.append("        }")
+        return name, "\n".join(L) + "\n", "spec"
     val = rust(sp.root, leaves, calls)
     L.append("                match top.1 {")
     L.append('                    %sSymbol::Variant%d(v) => assert!(v == %s, "pushed value"),' % (p, gp["push"], val))
@@ -334,6 +401,8 @@ def prepare(grammars, crate_name="e2", algo="lane"):
                 defs = {n.name: n for n in g.nts}
                 if gp["lhs"] in defs and defs[gp["lhs"]].inline:
                     continue      # productions of inlined nonterminals stay in the table but are unreachable
+                if gp["lhs"].endswith(("*", "?")) or (gp["lhs"].startswith("(") and gp["lhs"].endswith(")")) or gp["lhs"].startswith(p):
+                    continue      # X*, X?, groups are inlined by LALRPOP itself; __X = X of another start symbol is unreachable here
                 notes.append("%s: generated production `%s` has no specification counterpart" % (g.name, gp["text"]))
             else:
                 used_specs.add(key)
